@@ -46,7 +46,7 @@ Unchanged(ev) ==
 Judged(ev) == ~("j" \in DOMAIN ev /\ ev.j = 0)
 Judge(ev, extra) ==
   /\ bad' = (IF Judged(ev) THEN Verdict(ev) \cup extra ELSE {})
-  /\ (bad' = {} \/ PrintT(<<"V", l, bad'>>))
+  /\ (IF bad' = {} THEN TRUE ELSE PrintT(<<"V", l, bad'>>))
 
 \* adopt the logged placement / counters
 BindLog(ev) == Bind(LoggedPlace(ev), ev.size, ev.reserved, ev.nres, ev.align)
@@ -58,7 +58,7 @@ Deviation(ev, why) ==
   /\ UNCHANGED <<live, cells>> /\ BindLog(ev) /\ Judge(ev, {why})
 RefusedAsExpected(ev) ==
   /\ Refused /\ bad' = (IF Unchanged(ev) \/ ~Judged(ev) THEN {} ELSE {"RefusedButChanged"})
-  /\ (bad' = {} \/ PrintT(<<"V", l, bad'>>))
+  /\ (IF bad' = {} THEN TRUE ELSE PrintT(<<"V", l, bad'>>))
 
 IsEvent(e) == l <= Len(Log) /\ Log[l].e = e /\ l' = l + 1
 
